@@ -172,12 +172,12 @@ func limitProgs() []limitProg {
 		a.raw(2, 0)
 		a.pushInt(1000)
 		a.op(opcode.NEWARRAY, opcode.DUP, opcode.STLOC1, opcode.DUP, opcode.STSFLD0) // x on stack, in a local, in a static
-		a.op(opcode.DUP, opcode.PUSH1, opcode.PACK)                                    // [x]
-		a.op(opcode.DUP, opcode.PUSH1, opcode.PACKSTRUCT)                              // {[x]}
-		a.op(opcode.DUP, opcode.PUSH0, opcode.PICKITEM, opcode.PUSH0, opcode.REMOVE)   // [x] -> []: x removed one way
-		a.op(opcode.DROP, opcode.DROP, opcode.DROP)                                    // x still in the slots
-		a.op(opcode.LDLOC1, opcode.UNPACK, opcode.PACK)                                // referenced UNPACK of x, repacked
-		a.op(opcode.PUSHNULL, opcode.STLOC1, opcode.PUSHNULL, opcode.STSFLD0)          // x dies
+		a.op(opcode.DUP, opcode.PUSH1, opcode.PACK)                                  // [x]
+		a.op(opcode.DUP, opcode.PUSH1, opcode.PACKSTRUCT)                            // {[x]}
+		a.op(opcode.DUP, opcode.PUSH0, opcode.PICKITEM, opcode.PUSH0, opcode.REMOVE) // [x] -> []: x removed one way
+		a.op(opcode.DROP, opcode.DROP, opcode.DROP)                                  // x still in the slots
+		a.op(opcode.LDLOC1, opcode.UNPACK, opcode.PACK)                              // referenced UNPACK of x, repacked
+		a.op(opcode.PUSHNULL, opcode.STLOC1, opcode.PUSHNULL, opcode.STSFLD0)        // x dies
 		a.op(opcode.CLEARITEMS)
 	}))
 	add(mk("items/values-clones-structs", "FAULT", 1600, 0, 0, func(a *asm) {
